@@ -166,6 +166,12 @@ def expected (op : String) : Option (String × String) :=
   else if op.startsWith "H:" then some ("source:" ++ (op.drop 2).toString, (op.drop 2).toString)
   else none
 
+/-- `Manager.Default()` is not a load: it gives every section its default and leaves `Source` — itself a
+setting — alone (`init <url>` sets `Source`, calls `Default()` and saves: "Set url. If exists, it will be the
+only thing saved").  So after `Default()` the configuration must validate and be savable; what is saved is the
+defaults when no source is set, and exactly the source otherwise. -/
+def defaultLast (o : Obs) : Bool := o.ops.getLast? == some "D"
+
 def clauses (o : Obs) : List (String × Bool) :=
   let accepted := o.res.getLast? == some "ok"
   let exp := (o.ops.getLast?).bind expected
@@ -174,11 +180,12 @@ def clauses (o : Obs) : List (String × Bool) :=
     -- the configuration just accepted is what gets saved (nothing dropped, nothing substituted)
     ("saved_is_loaded", !accepted || (match exp with
         | some (sv, _) => o.saved == sv
-        | none => o.saved != "err")),
+        | none => if defaultLast o then (if o.src == "-" then o.saved == "full:" ++ o.eff else o.saved == "source:" ++ o.src)
+                  else o.saved != "err")),
     -- and loading the saved form gives the same effective configuration and the same source
     ("reload_same", !accepted || (match exp with
         | some (_, rs) => o.rres == "ok" && o.reff == o.eff && o.rsrc == rs
-        | none => o.rres == "ok" && o.reff == o.eff)) ]
+        | none => !(o.src == "-") || (o.rres == "ok" && o.reff == o.eff && o.rsrc == "-"))) ]
 
 def holds (o : Obs) : Bool := (clauses o).all (·.2)
 
